@@ -23,6 +23,8 @@ pub fn run_case(c: &Sx) -> Sx {
         "parsesrc" => parsesrc(v),
         "timeparse" => timeparse(v),
         "print" => print_term(v),
+        "listing" => listing_op(v),
+        "diag" => diag(v),
         "roundtrip" => roundtrip(v),
         "asciiclasses" => ascii_classes(),
         h => panic!("harness: unknown op {h}"),
@@ -525,5 +527,41 @@ fn roundtrip(v: &[Sx]) -> Sx {
     match parse(None, &printed, &toks2[..], &[]) {
         Ok(t2) => l(vec![a("reparsed"), a(&hex_encode(printed.as_bytes())), original, Exporter::default().term(&t2, false), l(tl)]),
         Err(_) => l(vec![a("printed-rejected"), a("parse"), a(&hex_encode(printed.as_bytes())), original, l(tl)]),
+    }
+}
+
+// (listing x:<src> start end)
+fn listing_op(v: &[Sx]) -> Sx {
+    let src = String::from_utf8(hex_decode(v[1].atom())).expect("utf8");
+    let r = crate::error::listing(&src, crate::error::SourceRange { start: v[2].usize(), end: v[3].usize() });
+    l(vec![a("listing"), a(&hex_encode(r.as_bytes())), chars_sx(&src)])
+}
+
+// (diag x:<src>): the parser's output with ranges (when the program parses) and the diagnostics of the
+// whole front end.
+fn diag(v: &[Sx]) -> Sx {
+    let src = match String::from_utf8(hex_decode(v[1].atom())) {
+        Ok(s) => s,
+        Err(_) => return l(vec![a("notutf8")]),
+    };
+    let chars = chars_sx(&src);
+    let toks = match tokenize(None, &src) {
+        Ok(t) => t,
+        Err(es) => return l(vec![a("diag"), a("lex"), a("none"), a("none"), errs("msgs", &es), chars]),
+    };
+    let mut tl = vec![a("toks")];
+    tl.extend(toks.iter().map(token_sx));
+    let term = match parse(None, &src, &toks[..], &[]) {
+        Ok(t) => t,
+        Err(es) => return l(vec![a("diag"), a("parse"), l(tl), a("none"), errs("msgs", &es), chars]),
+    };
+    let mut e = Exporter::default();
+    e.ranges = true;
+    let parsed = e.term(&term, false);
+    let mut tc = vec![];
+    let mut dc = vec![];
+    match type_check(None, &src, &term, &mut tc, &mut dc) {
+        Ok(_) => l(vec![a("diag"), a("ok"), l(tl), parsed, l(vec![a("msgs")]), chars]),
+        Err(es) => l(vec![a("diag"), a("type"), l(tl), parsed, errs("msgs", &es), chars]),
     }
 }
